@@ -2,6 +2,8 @@ package rules
 
 import (
 	"go/token"
+	"regexp"
+	"sort"
 	"strings"
 
 	"golang.org/x/tools/go/ssa"
@@ -89,6 +91,9 @@ func checkC04(c *Ctx) {
 		return false
 	})
 
+	r.Min("C04.value-semantics", 1)
+	c.checkValueSemantics("C04.value-semantics")
+
 	// ---- C04.pool-writers -------------------------------------------------
 	r.Min("C04.pool-writers", 6)
 	sets := c.Writers(reach, "Set", "SendToExternalKey")
@@ -145,7 +150,7 @@ func checkC04(c *Ctx) {
 
 	// ---- C04.key-agreement --------------------------------------------------
 	// every pool key (Set and Delete) is MakeSendToExternalKey(chain, X.Id, X.Fee) for one X
-	r.Min("C04.key-agreement", 2)
+	r.Min("C04.key-agreement", 3)
 	for _, f := range sortedFuncs(reach) {
 		for _, op := range p.StoreOps(f) {
 			if c.prefixName(op) != "SendToExternalKey" || !op.IsWrite() {
@@ -211,6 +216,77 @@ func checkC04(c *Ctx) {
 				"pool key is not built from the entry's own Id and Fee: "+detail)
 		}
 	}
+
+	// every reader and writer of a prefix spells the key the same way: a case / trim / replace transformation of a
+	// key component applied on one side only makes the reader look under a key the writer never writes
+	transformRe := regexp.MustCompile(`(?i)(ToLower|ToUpper|Trim|Replace|Title|Fields|Split|Fold|Normalize)`)
+	keyForms := map[string]map[string]string{} // prefix -> transformation signature -> an example site
+	for _, f := range sortedFuncs(reach) {
+		if p.L.IsGenerated(f.Pos()) {
+			continue
+		}
+		for _, op := range p.StoreOps(f) {
+			pn := c.prefixName(op)
+			if pn == "" || op.IsIter() {
+				continue
+			}
+			var sig []string
+			for k := range op.Key.Parts {
+				pt := op.Key.Parts[k]
+				if pt.Val == nil {
+					continue
+				}
+				sites := []ssa.CallInstruction{nil}
+				if p.PartLeaves(pt, nil, ana.PVOpt{}).HasPrefix("param:") {
+					sites = nil
+					for _, e := range p.In[f] {
+						if reach[e.Caller] {
+							sites = append(sites, e.Site)
+						}
+					}
+					if len(sites) == 0 {
+						sites = []ssa.CallInstruction{nil}
+					}
+				}
+				for _, site := range sites {
+					for _, o := range p.PartLeaves(pt, site, ana.PVOpt{}).OpList() {
+						if transformRe.MatchString(o) {
+							sig = append(sig, sprintf("%d:%s", k, o))
+						}
+					}
+				}
+			}
+			sort.Strings(sig)
+			key := strings.Join(sig, ",")
+			if keyForms[pn] == nil {
+				keyForms[pn] = map[string]string{}
+			}
+			if _, ok := keyForms[pn][key]; !ok {
+				keyForms[pn][key] = c.pos(op.Site) + " (" + op.Op + " in " + fname(f) + ")"
+			}
+		}
+	}
+	var pns []string
+	for pn := range keyForms {
+		pns = append(pns, pn)
+	}
+	sort.Strings(pns)
+	for _, pn := range pns {
+		forms := keyForms[pn]
+		if len(forms) <= 1 {
+			continue
+		}
+		var desc []string
+		for sig, where := range forms {
+			if sig == "" {
+				sig = "as given"
+			}
+			desc = append(desc, sig+" at "+where)
+		}
+		sort.Strings(desc)
+		r.Bad("C04.key-agreement", "transform:"+pn, "-", "the accesses of "+pn+" do not spell the key the same way ("+strings.Join(desc, "; ")+"): a record written under one spelling is not found under the other")
+	}
+	r.Ok("C04.key-agreement", "transform:all", "-", sprintf("%d prefixes: readers and writers apply the same key-component transformations", len(pns)))
 
 	// ---- C04.batch-build ----------------------------------------------------
 	r.Min("C04.batch-build", 3)
@@ -890,7 +966,6 @@ func enumValue(p *ana.Prog, pkgSuffix, name string) string {
 	}
 	return constExact(pkg.Types.Scope().Lookup(name))
 }
-
 
 // sameSlice: two values that denote the same slice – the same SSA value, loads of one local, or loads of the
 // same field path of one root (x.Items read twice).
